@@ -766,6 +766,98 @@ mod intent_tree {
     }
 }
 
+/// account_run <variant 0 original refund|1 bottlenose refund|2 original abort|3 bottlenose-era abort> <bucket resource 0 XRD|1 other
+///             fungible|2 non-fungible> <preference 0 none|1 allowed|2 disallowed> <default rule 0 accept|1 reject|2 allow
+///             existing> <vault exists> <badge given> <badge kind 0 NF|1 resource> <badge id> <badge listed> <proven>
+/// The account state is built with the REAL setters (set_default_deposit_rule, set_resource_preference,
+/// add_authorized_depositor, deposit) over the MockApi key-value store, then the REAL guarded deposit runs.
+/// Prints `<none|some|err> <deposited 0|1> <asserted 0|1> <rule ok 0|1>`.
+fn account_run(a: &[&str]) -> String {
+    use radix_common::prelude::*;
+    use radix_engine::blueprints::account::*;
+    use radix_engine_interface::blueprints::account::*;
+    use radix_engine_interface::blueprints::resource::*;
+    let n = |t: &str| -> i64 { t.parse().unwrap() };
+    let (variant, bres, pref, rule, vault, bgiven, bkind, bid, listed, proven) =
+        (n(a[0]), n(a[1]), n(a[2]), n(a[3]), n(a[4]), n(a[5]), n(a[6]), n(a[7]), n(a[8]), n(a[9]));
+    let other_fungible = {
+        let mut b = [3u8; NodeId::LENGTH];
+        b[0] = EntityType::GlobalFungibleResourceManager as u8;
+        ResourceAddress::new_or_panic(b)
+    };
+    let res = |r: i64| match r {
+        0 => XRD,
+        1 => other_fungible,
+        _ => ACCOUNT_OWNER_BADGE,
+    };
+    let mk = |b: u8| {
+        let mut x = [b; NodeId::LENGTH];
+        x[0] = EntityType::InternalGenericComponent as u8;
+        NodeId(x)
+    };
+    let badge = |kind: i64, id: i64| {
+        if kind == 0 {
+            ResourceOrNonFungible::NonFungible(NonFungibleGlobalId::new(IDENTITY_OWNER_BADGE, NonFungibleLocalId::integer(id as u64)))
+        } else {
+            ResourceOrNonFungible::Resource(res(id))
+        }
+    };
+    let mut api = mock_api::MockApi::default();
+    api.defaults.insert(RESOURCE_MANAGER_CREATE_EMPTY_VAULT_IDENT.to_string(), scrypto_encode(&Own(mk(60))).unwrap());
+    api.defaults.insert(VAULT_PUT_IDENT.to_string(), scrypto_encode(&()).unwrap());
+    api.defaults.insert(AUTH_ZONE_ASSERT_ACCESS_RULE_IDENT.to_string(), scrypto_encode(&()).unwrap());
+    let rule_v = match rule {
+        0 => DefaultDepositRule::Accept,
+        1 => DefaultDepositRule::Reject,
+        _ => DefaultDepositRule::AllowExisting,
+    };
+    AccountBlueprint::set_default_deposit_rule(rule_v, &mut api).unwrap();
+    if pref != 0 {
+        let p = if pref == 1 { ResourcePreference::Allowed } else { ResourcePreference::Disallowed };
+        AccountBlueprint::set_resource_preference(res(bres), p, &mut api).unwrap();
+    }
+    if vault == 1 {
+        api.outer_objects.insert(mk(51), res(bres).into());
+        AccountBlueprint::deposit(Bucket(Own(mk(51))), &mut api).unwrap();
+    }
+    if listed == 1 {
+        AccountBlueprint::add_authorized_depositor(badge(bkind, bid), &mut api).unwrap();
+    }
+    // an unrelated badge is always on the list: membership must be decided by the named badge
+    AccountBlueprint::add_authorized_depositor(badge(0, 77), &mut api).unwrap();
+    if proven == 0 {
+        api.fail_methods.insert(AUTH_ZONE_ASSERT_ACCESS_RULE_IDENT.to_string());
+    }
+    api.calls.clear();
+    api.outer_objects.insert(mk(50), res(bres).into());
+    let bucket = Bucket(Own(mk(50)));
+    let named = if bgiven == 1 { Some(badge(bkind, bid)) } else { None };
+    let outcome = match variant {
+        0 => AccountBlueprint::try_deposit_or_refund(bucket, named.clone(), &mut api).map(|o| o.is_some()),
+        1 => AccountBlueprintBottlenoseExtension::try_deposit_or_refund(bucket, named.clone(), &mut api).map(|o| o.is_some()),
+        _ => AccountBlueprint::try_deposit_or_abort(bucket, named.clone(), &mut api).map(|_| false),
+    };
+    let deposited = api.calls.iter().any(|c| c.1 == VAULT_PUT_IDENT);
+    let asserted: Vec<_> = api.calls.iter().filter(|c| c.1 == AUTH_ZONE_ASSERT_ACCESS_RULE_IDENT).collect();
+    let rule_ok = asserted.iter().all(|c| {
+        let input: AuthZoneAssertAccessRuleInput = scrypto_decode(&c.2).unwrap();
+        named.as_ref().map_or(false, |b| {
+            input.rule == AccessRule::Protected(CompositeRequirement::BasicRequirement(BasicRequirement::Require(b.clone())))
+        })
+    });
+    format!(
+        "{} {} {} {}",
+        match outcome {
+            Ok(false) => "none",
+            Ok(true) => "some",
+            Err(_) => "err",
+        },
+        deposited as u8,
+        (!asserted.is_empty()) as u8,
+        rule_ok as u8
+    )
+}
+
 /// authzone_run <kind rule|amount> <rk 0 NF|1 Resource> <rr> <ri> <amount attos> <dcp_some> <dcp> <gck> <gca> <g zone|-1>
 ///              <n zones> { <parent zone|-1> <sim res> <impl res> <impl id> <n proofs> {<res> <amount> <id>}* }*
 /// Zone 0 is the actor's own auth zone. Resources: 0 XRD, 1 ACCOUNT_OWNER_BADGE, 5 PACKAGE_OF_DIRECT_CALLER, 6 GLOBAL_CALLER,
@@ -987,6 +1079,7 @@ fn auth_run(a: &[&str]) -> String {
 fn run(a: &[&str]) -> String {
     match a[0] {
         "auth_run" => auth_run(&a[1..]),
+        "account_run" => account_run(&a[1..]),
         "intent_tree" => intent_tree::run(&a[1..]),
         "authzone_run" => authzone_run(&a[1..]),
         "vault_lock" => vault_lock(&a[1..]),
